@@ -53,6 +53,16 @@ func ZZ_C08_Server() {
 		RequestSubType:    sub,
 		ConsumedUnits:     datatype.Unsigned32(consumed),
 		MonetaryQuota:     datatype.Unsigned32(quota),
+		// every other scalar member of the request is arbitrary as well: the
+		// price and the allowed units are functions of sub-type, consumed
+		// units, quota and stored unit cost only
+		Price:                          datatype.Unsigned32(vx.Uint32("in.price")),
+		RequestedUnits:                 datatype.Unsigned32(vx.Uint32("in.requestedUnits")),
+		ConsumedUnitsAfterTariffSwitch: datatype.Unsigned32(vx.Uint32("in.consumedAfterSwitch")),
+		TariffSwitchTime:               datatype.Unsigned32(vx.Uint32("in.tariffSwitchTime")),
+		ValidUnits:                     datatype.Unsigned32(vx.Uint32("in.validUnits")),
+		MinimalRequestedUnits:          datatype.Unsigned32(vx.Uint32("in.minimalRequestedUnits")),
+		AllowedUnits:                   datatype.Unsigned32(vx.Uint32("in.allowedUnits")),
 	}
 	msg := diam.NewRequest(111, 16777218, nil)
 	vx.Assert("request marshals", msg.Marshal(&sur) == nil)
